@@ -5,6 +5,41 @@ CAFS_TRUSTED = ["BLAKE2b: the Lean implementation (Model/Blake2b.lean) equals mi
                 "harness/internal/memstore as the blob store contract"]
 
 PROPS = {
+    "C11": {
+        "sub": "c11",
+        "trivial": r"^(merge|mergetie) mode=\S+ arr=[^;,]*$",
+        "level_text": "Proof (Lean 4, every input, every arrival order = List.Perm of the sequence of split entries, all four modes) for: "
+                      "latest write wins in the main tree (C11_main_latest; C11_main_maximal without the distinct-times hypothesis), the main tree "
+                      "is the same in every mode (C11_main_tree_mode_independent, ..._mode_order_independent), ignore mode adds nothing "
+                      "(C11_ignore_adds_nothing), identical contents never count as conflicts and every deconflicted entry is a genuine conflict "
+                      "filed under its own split (C11_identical_never_conflict, C11_conflict_entry_sound, C11_flag_sound), forbid mode fails "
+                      "exactly on a conflict (C11_forbid_iff_conflict, C11_forbid_order_independent), the flags (C11_flag_iff_conflict), "
+                      "single-split diamond = plain upload (C11_single_split_eq_upload, C11_single_split_chunks). Partial (domain = outside the "
+                      "trigger of the known finding merge-identical-copies): the whole commit equals the specification and does not depend on the "
+                      "arrival order (C11_merge_eq_spec_partial, C11_merge_order_independent_partial / _batches); refuted inside the trigger by "
+                      "C11_neg_order_dependent_identical_losers / _identical_winner, and for equal upload times by C11_neg_tie_order_dependent "
+                      "(all by `decide`). The model (Model/Merge.lean) is the code after two fix: commits; the shape of the source it depends on "
+                      "is re-extracted on every run (C11_facts_source_shape). The real mergeSplits is driven through a hook with exact arrival "
+                      "orders (all permutations of up to 4-5 batches, samples above), and real splits are uploaded and committed end to end.",
+        "level_note": "Trusted: Lean kernel (axioms propext, Classical.choice, Quot.sound), the facts translator, the harness and driver, "
+                      "go-immutable-radix as a sorted map. The Go code is modelled, not verified directly. The model keeps main and deconflicted "
+                      "paths in two maps, i.e. assumes that `.conflicts/<split>/<path>` renderings do not collide (C11_deconflict_injective: true for "
+                      "split IDs without '/'; uploads filter out paths under .conflicts/ and .checkpoints/). Upload times of one path are assumed "
+                      "distinct (equal times: only outcome class, flags and the set of main paths are compared) and a split lists a path once. "
+                      "End-to-end runs do not control the order of the parallel index downloads.",
+        "trusted": ["hashicorp/go-immutable-radix behaves like a sorted map keyed by the rendered path"],
+        "assumptions": ["two uploads of one path by different splits never carry the same nanosecond timestamp (TimesDistinct); with equal times "
+                        "the first arrival stays in the main tree and the property does not determine the winner",
+                        "a split lists a path at most once (SplitUnique): its file list is the key listing of one upload generation",
+                        "no uploaded path lies under .conflicts/ or .checkpoints/ and split IDs contain no '/' (rendering of deconflicted paths is injective)",
+                        "every entry carries a non-zero timestamp (the merger panics otherwise: internal safeguard of the code)"],
+        "rule": "one evaluation = one (input, mode, arrival order) run on the real merger (hook: Diamond.mergeSplits fed from a pre-filled "
+                "indexer channel; e2e/single: real split uploads + Diamond.Commit + download) whose outcome class, conflict flags and sorted "
+                "(path -> hash:size) list were compared with the specification computed by the Lean model; distinct = distinct operation text; "
+                "single-upload inputs are trivial. After `##` the implementation's result is also compared with the CODE model's result "
+                "(aux_only_differences = 0 means the model is exact, inside the known-finding region too).",
+        "thorough_seeds": 2,
+    },
     "C16": {
         "sub": "c16",
         "trivial": r"^keys$|^walk p= d= n=[123]$",
